@@ -13,6 +13,7 @@ import GV.Proofs.JsConv
 import GV.Proofs.JsRoundtrip
 import GV.Proofs.CbGuard
 import GV.Proofs.CbHist
+import GV.Proofs.JsSlice
 import GV.Proofs.JsTagKey
 
 namespace GV.Props.C11
@@ -127,6 +128,29 @@ example : GV.Proofs.JsConv.RT
   simp [GV.Proofs.JsConv.RT, GV.Proofs.JsConv.RTList, GV.Proofs.JsConv.RTFields, GV.Proofs.JsConv.domTy, GV.Proofs.JsConv.domTys,
     RTScalar, inRange, zeroVal]
   exact ⟨[107], by decide, by decide⟩
+
+/-! ## slices: the window of the backing array handed to JavaScript -/
+
+/-- **sliceToNative_window** — for EVERY slice `{backing, offset, len, cap}` satisfying the slice invariant (`len ≤ cap`,
+    `offset + cap ≤ backing.length`; established by `new T(array)` and preserved by `$subslice`), `$sliceToNativeArray` yields
+    exactly `len` elements, the i-th being `backing[offset + i]` — whatever the capacity and however long the backing array
+    is. This is the list of elements that `GoVal.slice` stands for in `externalize`. -/
+theorem sliceToNative_window {α : Type} (s : GV.JsSlice.SliceRep α) (h : s.Inv) :
+    (GV.JsSlice.sliceToNative s).length = s.length ∧
+    ∀ i, i < s.length → (GV.JsSlice.sliceToNative s)[i]? = s.backing[s.offset + i]? :=
+  GV.Proofs.JsSlice.sliceToNative_window s h
+
+theorem slice_invariant {α : Type} (a : List α) :
+    (GV.JsSlice.ofArray a).Inv ∧
+    ∀ (s t : GV.JsSlice.SliceRep α) (lo hi mx : Nat), s.Inv → GV.JsSlice.subslice s lo hi mx = some t → t.Inv :=
+  ⟨GV.Proofs.JsSlice.ofArray_inv a, GV.Proofs.JsSlice.subslice_inv⟩
+
+/-- the "spans the whole backing array" fast path keyed on the SLICE's capacity is refuted by `buf[:2:2]` of a 5-element
+    array: it hands out all 5 elements. -/
+theorem sliceToNative_fastpath_counterexample :
+    let s : GV.JsSlice.SliceRep Nat := ⟨[1, 2, 3, 4, 5], 0, 2, 2⟩
+    s.Inv ∧ GV.JsSlice.sliceToNativeFast s = [1, 2, 3, 4, 5] ∧ GV.JsSlice.sliceToNative s = [1, 2] := by
+  refine ⟨by simp [GV.JsSlice.SliceRep.Inv], by decide, by decide⟩
 
 /-! ## the documented table -/
 
